@@ -10,6 +10,7 @@
 (*                                                                         *)
 (* Every action is one public operation on a real object:                  *)
 (*   Xreplace(m)  expr.xreplace(m)        Subs(o, r)  expr.subs(o, r)      *)
+(*   SubsMap(m)   expr.subs(dict m)                                        *)
 (*   DoitA        expr.doit()             RebuildA    rebuild from own args*)
 (*   PickleA      pickle round trip       CleanupA    PoolSum.cleanup()    *)
 (*   Nest(c)      the term becomes an argument / the summand of a new term *)
@@ -33,6 +34,7 @@ EXTENDS ExprAlgebra
 CONSTANTS InitTerms,    \* set of initial terms
           Maps,         \* substitution maps for Xreplace (sequences of <<key, replacement>>)
           Pairs,        \* <<old, new>> pairs for Subs
+          SubsMaps,     \* maps for subs(dict)
           Ctxs,         \* nesting contexts: terms with the hole Leaf("_")
           VaryArgs,     \* replacement terms for "one argument differs"
           VaryAttrs,    \* labels for "one non-SymPy attribute differs"
@@ -65,11 +67,18 @@ Init == /\ cur \in InitTerms /\ fs = FreeSyms(cur) /\ den = Doit(cur) /\ n = 0 /
 \* (ii) a map whose keys only occur bound changes nothing; (iii) on a node it is a homomorphism
 SubstChecks(m, r) ==
   << <<"SubstEval", LeafKeyed(m) => Doit(r) = Doit(Subst(den, m))>>,
+     <<"SubstEvalFreePart", LeafKeyed(m) => Doit(r) = Doit(Subst(den, RestrictFree(m, cur)))>>,
+     <<"BoundKeysIrrelevant", LeafKeyed(m) => r = Subst(cur, RestrictFree(m, cur))>>,
      <<"SubstEvalExact", (LeafKeyed(m) /\ UnfoldedRepl(m)) => Doit(r) = Subst(den, m)>>,
      <<"BoundIdentity", LawBoundIdentity(cur, m)>>,
      <<"Homomorphism", LawHomomorphism(cur, m)>>,
      <<"FreeAfterSubst", FreeSyms(Doit(r)) = FreeSyms(r)>> >>
 Xreplace(m) == /\ Budget /\ Admissible(cur, m)
+               /\ Become(Subst(cur, m), 1, SubstChecks(m, Subst(cur, m)))
+\* expr.subs(dict): SymPy applies the pairs one after the other; for maps whose replacement terms
+\* mention no key this is the simultaneous substitution (SubsMaps only contains such maps)
+SequentialSafe(m) == \A x \in DOMAIN m : \A key \in MapKeys(m) : key.k = "leaf" => key.h \notin FreeSyms(m[x][2])
+SubsMap(m)  == /\ Budget /\ Admissible(cur, m) /\ SequentialSafe(m)
                /\ Become(Subst(cur, m), 1, SubstChecks(m, Subst(cur, m)))
 OneMap(o, r) == << <<o, r>> >>
 Subs(o, r)  == /\ Budget /\ Admissible(cur, OneMap(o, r))
@@ -107,6 +116,7 @@ VaryPool(pos, p) ==
   /\ Become([cur EXCEPT !.ix[pos] = <<cur.ix[pos][1], p>>], 1, Differs([cur EXCEPT !.ix[pos] = <<cur.ix[pos][1], p>>]))
 
 Next == \/ \E m \in Maps : Xreplace(m)
+        \/ \E m \in SubsMaps : SubsMap(m)
         \/ \E p \in Pairs : Subs(p[1], p[2])
         \/ DoitA \/ RebuildA \/ PickleA \/ CleanupA
         \/ \E c \in Ctxs : Nest(c)
@@ -124,7 +134,7 @@ InvFree        == LawFree(cur)                 \* free symbols = those surviving
 \* the full quantification (every map of the configuration in every state), used in the
 \* small configurations; the transition-wise verdicts above cover the same laws on every
 \* transition taken
-AllMaps == Maps \cup { <<p>> : p \in Pairs }
+AllMaps == Maps \cup SubsMaps \cup { <<p>> : p \in Pairs }
 InvSubstEvalAll  == \A m \in AllMaps : LawSubstEval(cur, m)
 InvBoundIdentAll == \A m \in AllMaps : LawBoundIdentity(cur, m)
 InvHomomorphismAll == \A m \in AllMaps : \A t \in SubTerms(cur) : LawHomomorphism(t, m)
